@@ -14,7 +14,7 @@ Trace == ndJsonDeserialize(TraceFile)
 
 EdgeSet(r) == {<<r.edges[k][1], r.edges[k][2]>> : k \in 1..Len(r.edges)}
 Accept(r) == /\ r.panic = ""
-             /\ Range(r.out) \subseteq 1..r.n
+             /\ Elems(r.out) \subseteq 1..r.n
              /\ ValidOrder(EdgeSet(r), r.roots, r.out)
 
 Init == i = 1 /\ rejected = 0
